@@ -21,3 +21,26 @@ package renamer
 //@ lemma slotAndCountArray_Less_total C08: forall a slotAndCountArray, i int, j int ::
 //@     0 <= i && i < len(a) && 0 <= j && j < len(a) && !a.Less(i, j) && !a.Less(j, i) ==> a[i].count == a[j].count && a[i].slot == a[j].slot
 
+
+// ----------------------------------------------------------------------------------------------
+// C10: cross-chunk export aliases handed out by one ExportRenamer are pairwise distinct: every
+// returned name was not handed out before and is recorded as handed out afterwards.
+//@ func (*ExportRenamer).NextRenamedName
+//@   arith int
+//@   prop C10
+//@   requires r != nil
+//@   ensures fresh: !old(inDom(r.used, result))
+//@   ensures recorded: inDom(r.used, result)
+//@   ensures monotone: forall k string :: old(inDom(r.used, k)) ==> inDom(r.used, k)
+
+// ----------------------------------------------------------------------------------------------
+// C15: a minified name is never a reserved name (keywords, strict-mode reserved words, free/unbound
+// and pinned names of every module scope), labels are never keywords, and names of symbols used as
+// JSX tags do not start with a lower-case ASCII letter.
+//@ func (*MinifyRenamer).AssignNamesByFrequency
+//@   arith int
+//@   prop C15
+//@   opt scenario jsx_capital_reserved
+//@   site not-reserved: store symbolSlot.name requires ns == int(ast.SlotDefault) ==> r.reservedNames[value] == 0
+//@   site label-not-keyword: store symbolSlot.name requires ns == int(ast.SlotLabel) ==> js_lexer.Keywords[value] == 0
+//@   site jsx-capital: store symbolSlot.name requires ns == int(ast.SlotDefault) && slot.needsCapitalForJSX != 0 ==> !(value[0] >= 'a' && value[0] <= 'z')
